@@ -147,7 +147,8 @@ class File:
 
     def store_rows(self, dt, atom, nrows, rows):
         rb = symnp._prod(atom) * dt.itemsize
-        _W.tick('mmapwrite')
+        if _W.tick('mmapwrite'):
+            raise Crash('before write through the memory map')
         new = encode_rows(rows, dt, atom)
         size = self.bin.length()
         self.bin = new.concat(self.bin.cut(nrows * rb, size))
